@@ -450,6 +450,29 @@ def g_new(S, dst=None, allow_bad=True):
         S.emit('(tbl new h%d N N %s)', dst, kv({'a': S.column(a), 'b': S.column(b), 'c': S.cell()}))
         S.tags.add('new-bad-lengths')
         return
+    if allow_bad and 0.08 <= r < 0.13 and dst < len(S.t):
+        # rows that do not fit their header -> ValueError, handle keeps its table: several cells under ONE name (the name must not be repeated
+        # across the cells: defect C01-H2), or a row whose length is neither the header's nor 1
+        width = rng.choice([2, 3])
+        nr = rng.choice([1, 2, 3])
+        if rng.random() < 0.6:
+            hdr = S.names(1)
+            rows = [[S.cell() for _ in range(width)] for _ in range(nr)]
+            if nr > 1 and rng.random() < 0.3:
+                rows[rng.randrange(nr)] = [S.cell()]
+            if not any(len(x) > 1 for x in rows):
+                rows[0] = [S.cell() for _ in range(width)]
+            S.tags.add('rows-under-one-name')
+        else:
+            hdr = S.names(width)
+            rows = [[S.cell() for _ in hdr] for _ in range(nr)]
+            rows[rng.randrange(nr)] = [S.cell() for _ in range(width + 1)]
+            S.tags.add('rows-misfit-header')
+        if rng.random() < 0.5:
+            S.emit('(tbl new h%d %s %s (D))', dst, enc(rows), enc(hdr))
+        else:
+            S.emit('(tbl new h%d %s N (D))', dst, enc([list(hdr)] + rows))
+        return
     if r < 0.35:        # keyword columns with scalar / length-1 broadcast
         d = {}
         m = n
@@ -910,6 +933,7 @@ def _same_table(a, b):
 
 
 MUTATORS = ('setitem', 'delitem', 'update')
+FRESH_OPS = ('new', 'slice', 'mask', 'take', 'proj', 'sub', 'call', 'relabel', 'do', 'concat', 'add', 'addrec', 'copy', 'inc0')
 
 
 def check_invariants(t):
@@ -985,6 +1009,14 @@ def laws(rng, tier, ctx):
             if bad:
                 yield Finding('violation', case, bad)
                 break
+            # an operation that returns a NEW table returns a new OBJECT: not one of the tables that existed before the call (the model's `rstep`
+            # stipulates a fresh cell for these operations; only `d + None` and `concat([d])` hand back the operand: ops addnone / alias / concat of one)
+            if raised is None and op in FRESH_OPS and not (op == 'concat' and len(sx[3]) - 1 == 1):
+                res = state[int(sx[2][1:])]
+                shared = [k for k, t in enumerate(objs) if t is res]
+                if shared:
+                    yield Finding('violation', case, 'operation %s returned the very object of h%d instead of a new table: a later assignment through one handle would alter the other' % (op, shared[0]))
+                    break
             # a non-fitting assignment is rejected with ValueError and changes nothing
             if op == 'setitem':
                 h = int(sx[2][1:])
@@ -1066,6 +1098,40 @@ def laws(rng, tier, ctx):
                             _same_cell(x, y) for x, y in zip(res[c], [v for v, tf in zip(src[c], m) if tf])) for c in src):
                         yield Finding('violation', case, 'd[mask] is not the flagged rows in order with all columns')
                         break
+    # rows + header against a PLAIN list-of-rows reading (no zipper involved): every row as long as the header, or a single cell repeated across
+    # it, gives exactly those records in order; any other row length is a ValueError - also under a header of ONE name (defect C01-H2)
+    from pyg_base import dictable
+    nr = 200 if tier == 'quick' else 3000
+    for _ in range(nr):
+        c = rng.choice([1, 1, 2, 3])
+        hdr = rng.sample(NAMES, c)
+        nrow = rng.choice([1, 2, 3, 4])
+        lens_ = [rng.choice([c, c, c, 1, 2, 3]) for _ in range(nrow)]
+        rows = [[rng.choice([None, 1, 2, 0.5, 'p', 'q']) for _ in range(m)] for m in lens_]
+        form = rng.choice(['columns', 'header-row'])
+        line = '(tbl new h0 %s %s (D))' % ((enc(rows), enc(hdr)) if form == 'columns' else (enc([list(hdr)] + rows), 'N'))
+        case = dict(tag='law-rows-header', lines=[line], atomic=False)
+        count += 1
+        fits = all(m == c or m == 1 for m in lens_)
+        want = [dict(zip(hdr, r if len(r) == c else r * c)) for r in rows]
+        try:
+            from ..engine import with_timeout
+            t = with_timeout(lambda: dictable(rows, columns=hdr) if form == 'columns' else dictable([list(hdr)] + rows), 5)
+        except Timeout:
+            yield Finding('violation', case, 'the constructor does not return')
+            continue
+        except ValueError:
+            if fits:
+                yield Finding('violation', case, 'rows that fit their header (each as long as the header, or a single cell) were rejected with ValueError')
+            continue
+        except Exception as e:
+            yield Finding('violation', case, 'the constructor raised %s' % type(e).__name__)
+            continue
+        got = [dict(r) for r in t]
+        if not fits:
+            yield Finding('violation', case, 'rows of lengths %s under a header of %d name(s) were accepted: the table holds %r, cells were dropped or invented without an error' % (lens_, c, got))
+        elif list(t.keys()) != hdr or len(got) != len(want) or not all(set(g) == set(w) and all(_same_cell(g[k], w[k]) for k in w) for g, w in zip(got, want)):
+            yield Finding('violation', case, 'rows + header are not the records of a plain list-of-rows reading: %r, expected %r' % (got, want))
     if _COV['on']:
         EXTRA['line_coverage'] = coverage_report()
     yield count
